@@ -96,6 +96,14 @@ def check(ctx):
                 judge("layout[constructor]", {m: np.array(oL.force_constants[m]) for m in orders}, base1)
             except np.linalg.LinAlgError as e_:
                 judge("layout[constructor]", e_, base1)
+            # snapshots whose forces are all exactly zero (displacements not): they carry equations like any other; by linearity
+            # fit(f with snapshots 0,2 zeroed) = fit(f) - fit(f with only snapshots 0,2 kept)
+            fz = f1.copy()
+            fz[[0, 2]] = 0.0
+            only = f1 - fz
+            got_only = sfit(P, orders, d, only, 100)
+            if not isinstance(got_only, Exception):
+                judge("zero-force-snapshots", sfit(P, orders, d, fz, 100), {m: base1[m] - got_only[m] for m in orders})
             # an undisplaced snapshot (all displacements exactly zero, residual forces not zero) contributes only zero rows to the
             # design: wherever it stands in the list, and whether it is there at all, the fit is the same
             d0 = np.concatenate([np.zeros((1, P.N, 3)), d])
